@@ -562,6 +562,29 @@ pub fn eval_session_check(check: &str, case: &Case, replies: &[String]) -> Optio
                 }
             }
         }
+        // C19: the adapter did not trap and shows exactly what the core interpreter produces for the same calls
+        ["web-ok", i] => {
+            let i: usize = i.parse().unwrap();
+            if replies[i].starts_with("TRAP") && !replies[i].starts_with("TRAPPED") {
+                Err(format!("the adapter trapped (assertion / panic / transient state exposed) on page event {} ({})", i, case.ops[i]))
+            } else if replies[i].contains(" F:DIFF ") {
+                Err(format!("after page event {} the page shows something else than the core interpreter produces for the same calls: {}", i, replies[i]))
+            } else {
+                Ok(())
+            }
+        }
+        ["same-replies", ra, rb] => {
+            let (a1, a2) = parse_range(ra);
+            let (b1, b2) = parse_range(rb);
+            let xs: Vec<&String> = (a1..=a2).map(|k| &replies[k]).collect();
+            let ys: Vec<&String> = (b1..=b2).map(|k| &replies[k]).collect();
+            if xs == ys {
+                Ok(())
+            } else {
+                let k = (0..xs.len().min(ys.len())).find(|&k| xs[k] != ys[k]).unwrap_or(0);
+                Err(format!("after NEW the page differs from a fresh one at probe {}: {} vs {}", k, xs.get(k).map(|s| s.as_str()).unwrap_or("-"), ys.get(k).map(|s| s.as_str()).unwrap_or("-")))
+            }
+        }
         ["no-syntax-error"] => {
             let mut res = Ok(());
             for i in 0..case.ops.len() {
